@@ -364,9 +364,12 @@ class Ctx:
                 break
             safe = re.sub(r"[^A-Za-z0-9_.-]+", "_", k)[:80]
             path = os.path.join(REPLAYS, f"{self.id}-{safe}.json")
-            with open(path, "w") as f:
-                json.dump(dict(property=self.id, key=k, what=vs[0]["what"], occurrences=len(vs),
-                               seed=self.seed, tier=self.tier, case=vs[0]["replay"]), f, indent=1)
+            if getattr(self, "is_replay", None):
+                path = self.is_replay          # a replay run reports against the file it replayed and writes nothing
+            else:
+                with open(path, "w") as f:
+                    json.dump(dict(property=self.id, key=k, what=vs[0]["what"], occurrences=len(vs),
+                                   seed=self.seed, tier=self.tier, case=vs[0]["replay"]), f, indent=1)
             print(f"VIOLATION property={self.id} replay={path}  # {vs[0]['what'][:300]} ({len(vs)} occurrence(s))", flush=True)
         wall = time.time() - self.t0
         cov = dict(
@@ -380,8 +383,9 @@ class Ctx:
         cov.update(self.extra)
         ev = dict(property_id=self.id, tier=self.tier, seed=self.seed, level=level, coverage=cov,
                   assumptions=self.assumptions, wall_s=round(wall, 1), violations=len(fresh))
-        with open(os.path.join(EVIDENCE, f"{self.id}.json"), "w") as f:
-            json.dump(ev, f, indent=1)
+        if not getattr(self, "is_replay", None):      # the evidence file describes a whole check run, never a single replayed case
+            with open(os.path.join(EVIDENCE, f"{self.id}.json"), "w") as f:
+                json.dump(ev, f, indent=1)
         shutil.rmtree(self.work, ignore_errors=True)
         log(f"[{self.id}] tier={self.tier} seed={self.seed} states={self.states} judged={self.judged} "
             f"violations={len(fresh)} known={len(known_hit)} wall={wall:.1f}s")
